@@ -130,7 +130,11 @@ func (w *CronWorker) Work() {
 	var scheduled uint64
 	for {
 		// Get the next job config that is due for scheduling, otherwise return early.
-		key, ts, ok := w.schedule.Pop(Clock.Now())
+		// NOTE: Use the same reference time for the whole iteration. If a JobConfig that
+		// had exceeded its maximum number of missed schedules was bumped relative to
+		// now, but popped relative to a later time, it could be popped and bumped to
+		// the same schedule time over and over again without ever making progress.
+		key, ts, ok := w.schedule.Pop(now)
 		if !ok {
 			break
 		}
